@@ -1,18 +1,20 @@
+"""Manifest data: hook commits; the per-property entries live in tools/props/cXX.py (MANIFEST dict)."""
+import importlib, os, sys
+sys.path.insert(0, os.path.dirname(os.path.abspath(__file__)))
+
 HOOK_COMMITS = "d7d16a8d2733f68bbf61ecbe7b1e68c5e64013b2 42adbe47f133a96e5cfc5a0fd5069c5464218cc7 98993fb394f39d430d64b435a59bdd0e8de5d219 556a5b9a96f7b1563e8dfb97b07888eee6e99fea ".split()
 
-PENDING = "not yet built in this session; planned at proof level (DESIGN.md section 7)"
+PENDING = "not yet built (planned at proof level, DESIGN.md section 7); no check is registered, so nothing is claimed"
 
-CHECKS = [
-    {
-        "property_id": "C11",
-        "text": "Coq theorems over all of u64 x u64 x (u64 minus 0): the conversion model returns exactly the floor, never overflows its 128-bit intermediate, is monotone, additive up to 1 ps, shift invariant; Duration conversion exact and panic-free; measure_precision on any uniform stream of length >= 101 returns the step. The model is tied to the code by differential execution on boundary-dense inputs (debug and release) and by the generated PICOS constant.",
-        "note": "Trusted: Coq kernel, extraction (ExtrOcamlBasic), OCaml driver, hooks H1-H3, hand-written model validated by the correspondence stream; rdtsc/cntvct assembly, frequency probing and Instant are outside the model.",
-        "technique": "machine-checked proof in Coq (lia/nia over N) + differential correspondence against the real crate",
-    },
-]
-
-_claimed = {c["property_id"] for c in CHECKS}
-NOT_APPLICABLE = [
-    {"property_id": "C%02d" % i, "reason": PENDING}
-    for i in range(1, 21) if "C%02d" % i not in _claimed
-]
+CHECKS, NOT_APPLICABLE = [], []
+for i in range(1, 21):
+    pid = "C%02d" % i
+    try:
+        mod = importlib.import_module("props." + pid.lower())
+        man = getattr(mod, "MANIFEST", None)
+    except ModuleNotFoundError:
+        man = None
+    if man and not man.get("disabled"):
+        CHECKS.append(dict(man, property_id=pid))
+    else:
+        NOT_APPLICABLE.append({"property_id": pid, "reason": (man or {}).get("reason", PENDING)})
